@@ -43,3 +43,41 @@ W.contract(
     note="flatten: the leaves in order; the recursive call on a nested item is taken at this very contract (induction over the nesting depth of the value, which is finite for every value a program can build)",
     props=["C16"], executor="template", fuel=0, frame_check=False, may_raise=True,
 )
+
+
+# ---------------------------------------------------------------- reduce and product (C16: product matches the fold definition)
+from .laziness2 import _setup_kinds  # noqa: E402
+from .laziness import _setup_with_fn  # noqa: E402
+from .folds import folds  # noqa: E402,F401
+
+_RC = dict(executor="template", fuel=0, frame_check=False, may_raise=True, props=["C16"])
+W.contract(
+    "vyxal/elements.py::vy_reduce",
+    params=dict(lhs=VAL, rhs=ListOf(VAL), ctx=VAL), result=VAL, setup=_setup_kinds("reduce", lhs="function"),
+    requires=["len(rhs) >= 1"],
+    ensures=["result == folds(lhs, rhs)"],
+    note="reduce, overload (fun, any): the left fold of the list by the function (wrapper obligation over foldl's contract); this is the shape `product` calls",
+    **_RC,
+)
+W.contract(
+    "vyxal/elements.py::vy_reduce#list-first",
+    params=dict(lhs=ListOf(VAL), rhs=VAL, ctx=VAL), result=VAL, setup=_setup_kinds("reduce", rhs="function"),
+    requires=["len(lhs) >= 1"],
+    ensures=["result == folds(rhs, lhs)"],
+    note="reduce, overload (any, fun)",
+    **_RC,
+)
+
+
+def _setup_product(ex, fr):
+    _setup_with_fn("product", the_mul="multiply")(ex, fr)
+
+
+W.contract(
+    "vyxal/elements.py::product#law",
+    params=dict(lhs=ListOf(VAL), ctx=VAL), result=VAL, setup=_setup_product,
+    requires=["len(lhs) >= 1"],
+    ensures=["result == folds(the_mul, lhs)"],
+    note="product of a non-empty list is the left fold of the element `multiply` (wrapper obligation over reduce's contract)",
+    **_RC,
+)
